@@ -330,7 +330,7 @@ func run(c *reg.Ctx) {
 		}
 	}
 	large := 0
-	maxLarge := 12
+	maxLarge := 6
 	if c.Tier == "thorough" {
 		maxLarge = c.N / 20
 	}
